@@ -45,6 +45,9 @@ EXTRA = {
         "(modelled and compared, not claimed); a frame with rows that has lost all its columns is inside (zero units)",
         "building a facade on an existing table frame without keyword arguments (`Table(tdf)`, proxy.py) performs no "
         "consultation; the harness builds such facades for every access, the first checked access is the consultation",
+        "a 'text' column holding pd.NA (possible only through the dataframe API: text cells of tables that are read are "
+        "strings) makes write_csv / write_excel raise TypeError; such tables are out of the writers' domain and are "
+        "counted as not judged for those writers",
         "a consultation may refuse the table (ColumnUnitException, InvalidNamingError for duplicate names, ValueError "
         "for a dtype kind without a StarTable unit): no unit list is reported then, which the statement allows",
     ],
@@ -395,6 +398,7 @@ class TableState:
         self.refused = False        # the last operation on this table was refused by pandas before anything changed
         self.seen = None            # (look, units by name) at the last successful consultation of this table
         self.ops_since = 0          # operations on this table since that consultation
+        self.facade = None          # a Table facade created once for this frame and kept for the whole history
         self.expect_default = {}    # column name -> True: created without explicit unit, check at next success
         self.assigned = dict(assigned or {})   # column name -> the unit explicitly given for that column
         # column name -> display-format specifier given for that column (None: known to have none); kept by the
@@ -436,8 +440,13 @@ class Ctx:
     def df(self, new_df):
         """a new table object came into being (construction, re-wrap, derived frame): it becomes the current
         one, the table it came from stays alive as a sibling with its own register"""
+        from pdtable import Table
         ts = TableState(new_df, len(self.tables), assigned=self.cur.assigned if self.cur is not None else None,
                         assigned_fmt=self.cur.assigned_fmt if self.cur is not None else None)
+        try:
+            ts.facade = Table(new_df)            # no keyword arguments: builds the facade, consults nothing
+        except Exception:
+            ts.facade = None
         self.tables.append(ts)
         self.cur = ts
 
@@ -1414,16 +1423,54 @@ def probe(ctx, writers):
             except Exception:
                 pass
 
-    lookups_first = ctx.rng.chance(0.25)      # the first consultation after an operation may be a column lookup
+    lookups_first = ctx.rng.chance(0.25)      # the first consultation after an operation is not always `units`
+    first_kind, first_ok, first_units = None, False, None
     if lookups_first:
-        out.count("probe:lookups_first")
-        do_lookups()
+        ctx.rot = getattr(ctx, "rot", 0) + 1
+        first_kind = ["lookup", "iter", "metadata", "proxies"][ctx.rot % 4]
+        if first_kind == "proxies" and (df.empty or len(set(names)) != len(names)):
+            first_kind = "lookup"
+        out.count("probe:first_consultation:" + first_kind)
+        if first_kind == "lookup":
+            do_lookups()
+            got = dict(lookups)
+            first_ok = bool(names) and all(isinstance(got.get(n), str) for n in names)
+            first_units = [got.get(n) for n in names] if first_ok else None
+        else:
+            try:
+                if first_kind == "iter":
+                    pairs = [[c.name, c.unit] for c in quiet(lambda: list(t))]
+                elif first_kind == "metadata":
+                    pairs = [[k, v.unit] for k, v in quiet(lambda: t.column_metadata).items()]
+                else:
+                    pairs = [[c.name, c.unit] for c in quiet(lambda: t.column_proxies)]
+                first_ok, first_units = True, [p[1] for p in pairs]
+                ctx.send("units", first_units) if first_kind == "proxies" else ctx.send("iter", pairs)
+            except Exception as e:
+                ctx.send("units" if first_kind == "proxies" else "iter", exc_name(e))
     try:
         units = list(quiet(lambda: t.units))
         ures = units
     except Exception as e:
         units, ures = None, exc_name(e)
     ctx.send("units", ures)
+    if first_ok and units is None and ures["exc"] in REFUSALS:
+        _fail(ctx, f"a read of the table ({first_kind}) reported its columns although the table is refused when its units "
+                   "are read right afterwards: that accessor did not validate",
+              {"accessor": first_kind, "reported": first_units, "then": ures}, "the same refusal from every accessor",
+              ctx.prop + ":accessor-read-unvalidated:" + first_kind)
+    if first_ok and units is not None and first_kind != "lookup" and not df.empty and first_units != units:
+        _fail(ctx, f"{first_kind} reports other units than Table.units", {"accessor": first_units, "units": units},
+              "the same units", "C04:accessor-disagrees:" + first_kind)
+    if units is not None and ctx.cur.facade is not None:
+        try:
+            kept = list(quiet(lambda: ctx.cur.facade.units))
+            kept_names = list(ctx.cur.facade.column_names)
+        except Exception as e:
+            kept, kept_names = exc_name(e), None
+        if kept != units or kept_names != names:
+            _fail(ctx, "a Table facade kept since the frame was made reports other columns / units than a fresh facade",
+                  {"kept": kept, "kept_names": kept_names}, {"units": units, "names": names}, "C04:long-lived-facade")
     if units is not None:
         import pandas as pd
         ctx.snap = pd.DataFrame(df).copy()       # plain copy of the frame as last consulted successfully
@@ -1640,6 +1687,10 @@ def run_writers(ctx, t):
     js = res["json"]
     if isinstance(js, dict) and js["exc"] not in REFUSALS + ("IndexError", "KeyError"):
         pass                                    # judged by the oracle (writer_reasons); nothing the model speaks about
+    elif len(t.df) < 1 or t.df.empty:
+        # outside the statement (no rows): units may be fewer than columns there, and whether the JSON writer then
+        # raises IndexError or stops early is an implementation detail that is not compared
+        ctx.out.count("json_not_compared:table without rows")
     else:
         ctx.send("json", {"exc": js["exc"]} if isinstance(js, dict) else js)
     return res
@@ -2006,8 +2057,28 @@ def function_level(out, rng, n):
         rng = RecRng(rng)           # the value generators use `chance`; a plain random.Random does not have it
     ops, pend = [], []
     kinds = ["b", "i", "u", "f", "M", "O", "S", "U", "m", "c", "V", "T", "", "OO", "B", "F"]
+    import numpy as np
+    real = {"b": np.dtype(bool), "i": np.dtype("int64"), "u": np.dtype("uint64"), "f": np.dtype("float64"),
+            "M": np.dtype("datetime64[ns]"), "O": np.dtype(object), "S": np.dtype("S1"), "U": np.dtype("U1"),
+            "m": np.dtype("timedelta64[ns]"), "c": np.dtype("complex128"), "V": np.dtype("V1")}
+
+    class KindOnly:
+        """hashable stand-in for a dtype of a kind numpy has no dtype for (only `.kind` means anything)"""
+
+        def __init__(self, kind):
+            self.kind, self.name, self.type = kind, "kind-" + kind, object
+
+        def __hash__(self):
+            return hash(("KindOnly", self.kind))
+
+        def __eq__(self, other):
+            return isinstance(other, KindOnly) and other.kind == self.kind
+
+        def __repr__(self):
+            return f"KindOnly({self.kind!r})"
+
     for k in kinds:
-        dt = types.SimpleNamespace(kind=k)
+        dt = real.get(k) or KindOnly(k)
         try:
             r = unit_from_dtype(dt)
         except Exception as e:
@@ -2061,7 +2132,7 @@ E_PLANS = [(["a", "b"], ["f", "s"], 1, "good", True), (["a", "b"], ["f", "s"], 0
 
 
 # size ladder for the number of columns: around pandas' repr / display thresholds and one much larger table
-WIDTHS_QUICK = [61, 64, 90, 300]
+WIDTHS_QUICK = [61, 64, 90, 300, 600]
 WIDTHS_THOROUGH = [60, 61, 63, 64, 65, 90, 127, 129, 257, 300, 1025]
 WIDE_SCRIPTS = [("df_break_middle",), ("set_format", "df_break_middle"), ("df_move", "df_break_middle", "df_restore"),
                 ("copy", "df_break_middle")]
@@ -2083,12 +2154,42 @@ def scripts_of(alphabet, depth):
     return res
 
 
+def label_cases(out, seed):
+    """column labels that are not strings (ints, floats, tuples, labels equal as text but different as objects):
+    oracle only — the model speaks about string labels.  One unit per column, in column order, by lookup."""
+    import pandas as pd
+    from pdtable import Table
+    cases = [[0, 1], [1, "1"], [(0, "a"), (0, "b")], [1.5, 2, "x"], [True, "True", 7]]
+    for labels in cases:
+        df = pd.DataFrame({i: [1.0 + i, 2.0] for i in range(len(labels))})
+        df.columns = pd.Index(labels, dtype=object)
+        given = [fresh(u) for u in ["kg", "mm", "N/m"][:len(labels)]]
+        case = {"seed": seed, "stream": "labels", "index": cases.index(labels), "ops": [], "labels": [repr(x) for x in labels]}
+        out.count("label_cases")
+        try:
+            t = quiet(Table, df, name="t", units=given)
+            units = list(quiet(lambda: t.units))
+            looked = [quiet(lambda n=n: t[n].unit) for n in labels]
+        except Exception as e:
+            out.fail("a table whose column labels are not strings cannot be consulted", case, exc_name(e), given,
+                     key="C04:labels:" + type(e).__name__)
+            continue
+        if units != given or looked != given:
+            out.fail("a table whose column labels are not strings does not report the units given by position", case,
+                     {"units": units, "lookup": looked}, given, key="C04:labels")
+
+
 def _same_step(exp, ans):
     """a step agrees when every field the harness could observe agrees (the remembered-state fields `last` / `ls` are
     only present in the expectation when the implementation's remembered state was observable)"""
     if not (isinstance(exp, dict) and isinstance(ans, dict) and "reg" in exp):
         return exp == ans
-    return all(ans.get(k, "<absent>") == v for k, v in exp.items())
+    return all(ans.get(k, "<absent>") == v for k, v in exp.items() if k not in ("last", "ls"))
+
+
+def _remembered_differs(exp, ans):
+    return isinstance(exp, dict) and isinstance(ans, dict) and any(
+        k in exp and ans.get(k, "<absent>") != exp[k] for k in ("last", "ls"))
 
 
 def compare(out, what, case, exp, ans):
@@ -2096,6 +2197,11 @@ def compare(out, what, case, exp, ans):
         out.mismatch("driver error in " + what, case, exp, ans)
         return
     if isinstance(exp, dict) and "steps" in exp and isinstance(ans, dict) and "steps" in ans:
+        if any(_remembered_differs(a, b) for a, b in zip(exp["steps"], ans["steps"])):
+            # whether and when the library remembers a validated state is not behaviour (a copy may validate now or
+            # at the next consultation): recorded in the evidence, not a broken correspondence.  Results, exception
+            # classes, the register and the strict flag of every step are still compared.
+            out.count("remembered_state_differs_from_model")
         if _same_step(exp["init"], ans["init"]) and len(exp["steps"]) == len(ans["steps"]) and \
                 all(_same_step(a, b) for a, b in zip(exp["steps"], ans["steps"])):
             return
@@ -2201,6 +2307,8 @@ def _run(out, tier, seed, model_ok, translator, search, prop, weights, thorough)
         pend += fpend
         for (what, case, exp), ans in zip(pend, common.run_model(ops)):
             compare(out, what, case, exp, ans)
+    if prop == "C04":
+        label_cases(out, seed)
     # oracle health: a writer probe that never gets as far as the pairing check checks nothing
     for w, floor in (("csv", 0.8), ("csv_t", 0.8), ("json", 0.8), ("xlsx", 0.6)):
         tot, ok = out.dist.get("writer_probe:" + w, 0), out.dist.get("writer_judged:" + w, 0)
